@@ -88,8 +88,8 @@ Section GenCosmolib.
     let d := (fDm zmin zmax) in let d := (d / ((0x1.0000000000000p+0) + zmax)) in d.
   Definition Dl_src (fDm : float -> float -> float) (zmin zmax : float) : float :=
     let d := (fDm zmin zmax) in let d := (d * ((0x1.0000000000000p+0) + zmax)) in d.
-  Definition dV_src (DH : float) (fDc : float -> float -> float) (fez : float -> float) (z : float) : float :=
-    let dc := (fDc (0x0.0p+0) z) in let ezinv := (fez z) in let dv := (((DH * dc) * dc) * ezinv) in dv.
+  Definition dV_src (DH : float) (fDa : float -> float -> float) (fez : float -> float) (z : float) : float :=
+    let oneplusz := ((0x1.0000000000000p+0) + z) in let da := (fDa (0x0.0p+0) z) in let ezinv := (fez z) in let dv := (((((DH * da) * da) * ezinv) * oneplusz) * oneplusz) in dv.
   Definition V_src (xs ws : list float) (fdV : float -> float) (zmin zmax : float) : float :=
     let v := (0x0.0p+0) in let f1 := ((zmax - zmin) / (0x1.0000000000000p+1)) in let f2 := ((zmax + zmin) / (0x1.0000000000000p+1)) in let v := fold_left (fun v xw => let xi := fst xw in let wi := snd xw in let z := ((xi * f1) + f2) in let dv := (fdV z) in let v := (v + ((f1 * dv) * wi)) in v) (combine xs ws) v in ((v * (0x1.0000000000000p+2)) * M_PI_F).
   Definition scinv_src (fDa : float -> float -> float) (zl zs : float) : float :=
